@@ -128,7 +128,9 @@ Definition gcc_depfile (tgt : str) (wdeps : list (nat * str)) : str :=
      a raw tab              -> None (at the start of a line it would open a recipe)
      backslash other        -> a literal backslash, then the other character is read normally
      dollar dollar          -> dollar
-     first colon of a line  -> end of targets (at least one target required); a second colon -> None *)
+     first colon of a line  -> end of targets (at least one target required); a second colon -> None
+   Not modelled: Make drops a leading dot-slash from every name (on both sides of a rule alike, so whether a
+   dependency is a target is unaffected); rules of one target given twice are merged by Make. *)
 Definition mrule := (list str * list str)%type.
 
 Definition flush (cur : option str) (ws : list str) : list str :=
@@ -204,3 +206,40 @@ Definition name_ok (s : str) : bool :=
   | [] => false
   | c :: _ => negb (c =? c_tilde) && forallb char_ok s && negb (last s 0 =? c_sp)
   end.
+
+(* ------------------------------------------------------------------ specification of the error branches
+   A declarative reading of when emit_deps raises, line by line: a line terminated by a newline must contain exactly
+   one separator colon; the unterminated rest of the input must contain no separator colon and must not end in a
+   blank (an unterminated rule is an error, trailing word characters are silently ignored - as written). *)
+Definition is_colon (t : tok) : bool := match t with TColon => true | _ => false end.
+Definition ncolon (l : list tok) : nat := length (filter is_colon l).
+
+Fixpoint split_lines (ts cur : list tok) : list (list tok) * list tok :=
+  match ts with
+  | [] => ([], cur)
+  | TNewline :: r => let p := split_lines r [] in (cur :: fst p, snd p)
+  | t :: r => split_lines r (cur ++ [t])
+  end.
+
+Definition line_err (l : list tok) : option derr :=
+  match ncolon l with
+  | O => Some (EUnexpected TNewline)
+  | Datatypes.S O => None
+  | _ => Some (EUnexpected TColon)
+  end.
+
+Definition tail_err (l : list tok) : option derr :=
+  match ncolon l with
+  | O => match last l (TChar 0) with TSpace => Some EEof | _ => None end
+  | Datatypes.S O => Some EEof
+  | _ => Some (EUnexpected TColon)
+  end.
+
+Fixpoint first_err (ls : list (list tok)) (rest : list tok) : option derr :=
+  match ls with
+  | [] => tail_err rest
+  | l :: r => match line_err l with Some e => Some e | None => first_err r rest end
+  end.
+
+Definition depfile_err (s : str) : option derr :=
+  let p := split_lines (tokenize s) [] in first_err (fst p) (snd p).
